@@ -79,7 +79,7 @@ struct dispatch_table
                  // try the first guard
                  typedef typename ::boost::mpl::front<Sequence>::type first_row;
                  boost::msm::back::HandledEnum res = first_row::execute(fsm,region_index,state,evt);
-                 if (::boost::msm::back::HANDLED_TRUE!=res && ::boost::msm::back::HANDLED_DEFERRED!=res)
+                 if (((int)res & ((int)::boost::msm::back::HANDLED_TRUE | (int)::boost::msm::back::HANDLED_DEFERRED)) == 0)
                  {
                     // if the first rejected, move on to the next one
                     boost::msm::back::HandledEnum sub_res =
